@@ -33,6 +33,11 @@ def run(run, model):
     run.do(c09.dispatch_table, model, "C02.error-dispatch")
     run.do(meta.snapshot_provenance, model, "C02.old-inherited")
     run.do(c04.post_collapse, model, "C02.inherited-post")
+    run.do(c04.base_loop_table, model, "C02.inherited-base-loop")
+    # the exception of the body reaches the caller: the give-back of the marker in the ``finally`` does not fail on the way
+    run.do(marker.report_rule, model, "C11.release-on-all-exits", marker.MARKER_REGIONS, "no exit is reached with the marker held", as_rule="C02.marker-given-back")
+    from . import effects
+    run.do(effects.no_memo, model, "C02.no-memo")
     run.do(c05.order_identity, model, "C02.args-order", "C02.args-identity")
     run.do(c05.defaults_rule, model, "C02.defaults")
     run.do(common.truth_rule, model, "C02.truth")
